@@ -48,7 +48,7 @@ func init() {
 				}
 				okCmp := false
 				for _, g := range fi.Guards(ret) {
-					be, ok := ast.Unparen(g.Expr).(*ast.BinaryExpr)
+					be, ok := fi.expandLocals(g.Expr).(*ast.BinaryExpr)
 					if !ok || g.Kind != "bool" || !((!g.Neg && be.Op == token.EQL) || (g.Neg && be.Op == token.NEQ)) {
 						continue
 					}
@@ -446,7 +446,7 @@ func init() {
 				return
 			}
 			allowed := map[string]bool{}
-			for _, t := range []string{"ArrayType", "BasicLit", "BinaryExpr", "ChanType", "CompositeLit", "FuncType", "Ident", "IndexExpr", "IndexListExpr", "InterfaceType", "KeyValueExpr", "MapType", "ParenExpr", "SelectorExpr", "SliceExpr", "StarExpr", "StructType", "TypeAssertExpr", "Ellipsis", "Field", "FieldList"} {
+			for _, t := range []string{"ArrayType", "BasicLit", "BinaryExpr", "ChanType", "CompositeLit", "FuncType", "Ident", "IndexExpr", "IndexListExpr", "InterfaceType", "KeyValueExpr", "MapType", "ParenExpr", "SelectorExpr", "SliceExpr", "StarExpr", "StructType", "TypeAssertExpr", "Ellipsis", "Field", "FieldList", "Comment", "CommentGroup"} {
 				allowed["*ast."+t] = true
 			}
 			var insp *ast.CallExpr
@@ -612,7 +612,7 @@ func init() {
 					accepted[types.ExprString(e)] = true
 				}
 			}
-			for _, t := range []string{"ArrayType", "ChanType", "FuncType", "InterfaceType", "MapType", "StructType", "FieldList", "Field", "Ellipsis", "IndexListExpr"} {
+			for _, t := range []string{"ArrayType", "ChanType", "FuncType", "InterfaceType", "MapType", "StructType", "FieldList", "Field", "Ellipsis", "IndexListExpr", "Comment", "CommentGroup"} {
 				r.Check(accepted["*ast."+t], "type-syntax:*ast."+t, sw.Pos(), "type syntax node %s is accepted (it occurs inside the type of a composite literal, conversion or assertion and cannot execute)", t)
 			}
 			r.Check(hasDefault, "default-present", sw.Pos(), "the node-kind switch has a default")
@@ -891,12 +891,68 @@ func init() {
 						return neg + "declared-inside"
 					}
 				}
+				// one half of it, when the test was split into nested or flattened conditions
+				if c, ok := ast.Unparen(g.Expr).(*ast.BinaryExpr); ok && !g.Neg && (c.Op == token.LEQ || c.Op == token.LSS || c.Op == token.GEQ || c.Op == token.GTR) {
+					tx, ty := af.Info.TypeOf(c.X), af.Info.TypeOf(c.Y)
+					if tx != nil && ty != nil && types.TypeString(tx, nil) == "go/token.Pos" && types.TypeString(ty, nil) == "go/token.Pos" {
+						return "pos-bound"
+					}
+				}
+				// the object is a struct field or a method (a member a type literal declares): any boolean
+				// combination that is true exactly for isFunc ∨ (isVar ∧ IsField())
+				{
+					used := map[string]bool{}
+					atom := func(e ast.Expr) (string, bool) {
+						if cl := af.isCall(e, "go/types.Var.IsField"); cl != nil {
+							used["isField"] = true
+							return "isField", true
+						}
+						if v := af.varOf(e); v != nil {
+							if d := af.singleDef(v); d != nil && d.idx == 1 {
+								if ta, ok := ast.Unparen(d.rhs).(*ast.TypeAssertExpr); ok && ta.Type != nil {
+									switch types.TypeString(af.Info.TypeOf(ta.Type), nil) {
+									case "*go/types.Func":
+										used["isFunc"] = true
+										return "isFunc", true
+									case "*go/types.Var":
+										used["isVar"] = true
+										return "isVar", true
+									}
+								}
+							}
+						}
+						return "", false
+					}
+					member, decided := true, true
+					for _, fn := range []bool{false, true} {
+						for _, vr := range []bool{false, true} {
+							for _, fl := range []bool{false, true} {
+								if fn && vr {
+									continue // an object is not both
+								}
+								v, ok := evalCond(g.Expr, map[string]bool{"isFunc": fn, "isVar": vr, "isField": fl}, atom)
+								if !ok {
+									decided = false
+								}
+								if g.Neg {
+									v = !v
+								}
+								if v != (fn || vr && fl) {
+									member = false
+								}
+							}
+						}
+					}
+					if decided && member && used["isFunc"] && used["isVar"] && used["isField"] {
+						return "type-literal-member"
+					}
+				}
 				if x, ne, ok := af.lenTest(g); ok && ne {
 					if f := af.selField(x); f != nil && f.Name() == "Elts" {
 						return "literal-has-elements"
 					}
 				}
-				if cl := af.isCall(g.Expr, "go/types.Var.Exported", "go/types.object.Exported"); cl != nil {
+				if cl := af.isCall(g.Expr, "go/types.Var.Exported", "go/types.object.Exported", "go/types.Object.Exported"); cl != nil {
 					return neg + "field.Exported()"
 				}
 				if cl := af.isCall(g.Expr, "go/ast.IsExported"); cl != nil {
@@ -934,7 +990,7 @@ func init() {
 				}
 				return neg + "?(" + types.ExprString(g.Expr) + ")"
 			}
-			var unexported, scope, literal bool
+			var unexported, scope, literal, member bool
 			for _, rj := range rejs {
 				var all, core []string
 				for _, g := range rj.conds {
@@ -957,9 +1013,22 @@ func init() {
 					}
 					core = append(core, s)
 				}
+				// both halves of the position test make the whole
+				if nb := strings.Count(" "+strings.Join(core, "  ")+" ", " pos-bound "); nb == 2 {
+					var c2 []string
+					for _, x := range core {
+						if x != "pos-bound" {
+							c2 = append(c2, x)
+						}
+					}
+					core = append(c2, "declared-inside")
+				}
 				sort.Strings(core)
 				got := strings.Join(all, " ∧ ")
 				switch strings.Join(core, " ∧ ") {
+				case "!field.Exported() ∧ declared-inside ∧ pkg.Path()!=wantPkg ∧ type-literal-member":
+					member = true
+					r.Ok("reject/type-literal-member", rj.as.Pos(), "an unexported field or method name that a type literal of the expression declares is rejected when the expression moves to another package (there it is a different type) — under exactly: %s", got)
 				case "!IsExported(ident.Name) ∧ pkg.Path()!=wantPkg":
 					unexported = true
 					r.Check(strings.Contains(got, "!declared-inside"), "reject/unexported-foreign/not-own-declarations", rj.as.Pos(), "names the expression itself declares (parameters of a function type, fields of a struct type) are exempt: they move with it")
@@ -988,6 +1057,7 @@ func init() {
 			}
 			r.Check(unexported, "reject/unexported-foreign-present", lit.Pos(), "the unexported-foreign rejection exists with its exact guard")
 			r.Check(scope, "reject/not-package-scope-present", lit.Pos(), "the not-package-scope rejection exists with its exact guard")
+			r.Check(member, "reject/type-literal-member-present", lit.Pos(), "a type literal declaring unexported field or method names is not moved into another package")
 			r.Check(literal, "reject/unkeyed-literal-present", lit.Pos(), "an unkeyed literal of a struct with unexported fields of another package is rejected (it mentions no identifier the other tests could see)")
 		})
 }
